@@ -78,7 +78,7 @@ def rescan (better : α → α → Bool) (first : Nat) (l : List α) : α → Na
 
 namespace UpperReversalSignal
 def new (P : Nat) (left right : Nat) (value : α) : Res (UpperReversalSignal α) :=
-  if left = 0 ∨ right = 0 ∨ satAdd P left right = P then .err .wrongMethodParameters
+  if left = 0 ∨ right = 0 ∨ satAdd P left right ≥ P - 1 then .err .wrongMethodParameters
   else match chkAdd P left right with
     | .error p => .panic p
     | .ok lr => match chkAdd P lr 1 with
@@ -117,7 +117,7 @@ structure LowerReversalSignal (α : Type) where
 
 namespace LowerReversalSignal
 def new (P : Nat) (left right : Nat) (value : α) : Res (LowerReversalSignal α) :=
-  if left = 0 ∨ right = 0 ∨ satAdd P left right = P then .err .wrongMethodParameters
+  if left = 0 ∨ right = 0 ∨ satAdd P left right ≥ P - 1 then .err .wrongMethodParameters
   else match chkAdd P left right with
     | .error p => .panic p
     | .ok lr => match chkAdd P lr 1 with
